@@ -305,9 +305,22 @@ PROBES_80 = [
 ]
 
 
+# numeric DATA items over twenty orders of magnitude, with and without an empty item (which sends every number through
+# its text and the read filter): the value that arrives must be the value written
+DATA_VALUE_PROBES = [
+    '10 DATA 1E-10,,1.5E-9,1.234567E-5,1E16,123456789012,0.000001,2.5E-7\n20 READ A,B,C,D,E,F,G,H\n'
+    '30 A=A*1E10:C=C*1E9:D=D*1E5:E=E/1E16:F=F/1E6:G=G*1E6:H=H*1E7\n40 PRINT A;B;C;D;E;F;G;H',
+    '10 DATA 1E-10,1.5E-9,1.234567E-5,1E16,123456789012,0.000001,2.5E-7\n20 READ A,C,D,E,F,G,H\n'
+    '30 A=A*1E10:C=C*1E9:D=D*1E5:E=E/1E16:F=F/1E6:G=G*1E6:H=H*1E7\n40 PRINT A;C;D;E;F;G;H',
+    '10 DATA ,0.5,.25,1E-5,1E-4,0.0001,12345.678,1E5,99999,100000,1E9,1E10\n20 READ Z,A,B,C,D,E,F,G,H,I,J,K\n'
+    '30 A=A*4:B=B*8:C=C*1E5:D=D*1E4:E=E*1E4:G=G/1E5:J=J/1E9:K=K/1E10\n40 PRINT Z;A;B;C;D;E;F;G;H;I;J;K',
+    '10 DATA 3E-10,,0.000123456789,&HFF,1E-38,32767,32766\n20 READ A,B,C,D,E,F,G\n30 A=A*1E10:C=C*1E4:E=E*1E38\n40 PRINT A;B;C;D;E;F;G',
+]
+
+
 def cases(tier):
     r = rng("sem-suite")
-    progs = [(p, "probe") for p in PROBES] + [(p, "probe80") for p in PROBES_80]
+    progs = [(p, "probe") for p in PROBES] + [(p, "probe80") for p in PROBES_80] + [(p, "data-value-probe") for p in DATA_VALUE_PROBES]
     for _ in range(200 if tier != "thorough" else 2500):
         progs.append((SGen(r).program(), "generated"))
     out = []
